@@ -14,4 +14,5 @@ def run(facts, cg):
     out['r_misc'] = r_misc.run(facts, cg)
     out['r_chunker'] = r_chunker.run(facts, cg)
     out['r_readerwiring'] = r_readerwiring.run(facts, cg)
+    out['r_cliflags'] = r_openflags.run_cliflags(facts, cg)
     return out
